@@ -16,6 +16,9 @@ type State struct {
 	panicked bool           // state is unwinding because of a panic
 	sink     *State         // views (old heap) send their typing facts to the live state
 	defers   []deferred
+	// binderFacts collects typing facts about terms that mention bound variables while a quantifier
+	// body is being evaluated; the quantifier adds them as hypotheses.
+	binderFacts *[]*Term
 }
 
 func (s *State) Clone() *State {
@@ -96,12 +99,19 @@ func (h *Heap) assumeTyped(s *State, v Value) {
 		}
 	case kSlice:
 		sl := v.Sl
-		if sl.Arr.HasBVar() || s.typed[sl.Arr] && s.typed[sl.Len] {
+		fact := c.And(c.Ge(sl.Arr, c.Int(0)), c.Le(sl.Arr, s.allocTop), c.Ge(sl.Off, c.Int(0)), c.Ge(sl.Len, c.Int(0)), c.Le(sl.Len, sl.Cap),
+			c.Implies(c.Eq(sl.Arr, c.Int(0)), c.And(c.Eq(sl.Cap, c.Int(0)), c.Eq(sl.Off, c.Int(0)))))
+		if sl.Arr.HasBVar() || sl.Len.HasBVar() {
+			if s.binderFacts != nil {
+				*s.binderFacts = append(*s.binderFacts, fact)
+			}
+			return
+		}
+		if s.typed[sl.Arr] && s.typed[sl.Len] {
 			return
 		}
 		s.typed[sl.Arr], s.typed[sl.Len] = true, true
-		s.Assume(c.And(c.Ge(sl.Arr, c.Int(0)), c.Le(sl.Arr, s.allocTop), c.Ge(sl.Off, c.Int(0)), c.Ge(sl.Len, c.Int(0)), c.Le(sl.Len, sl.Cap),
-			c.Implies(c.Eq(sl.Arr, c.Int(0)), c.And(c.Eq(sl.Cap, c.Int(0)), c.Eq(sl.Off, c.Int(0))))))
+		s.Assume(fact)
 	case kInt:
 		if isUnsigned(v.T) {
 			h.typeFact(s, v.Term, c.Ge(v.Term, c.Int(0)))
@@ -114,7 +124,13 @@ func (h *Heap) assumeTyped(s *State, v Value) {
 }
 
 func (h *Heap) typeFact(s *State, t *Term, fact *Term) {
-	if t.IsLit() || t.HasBVar() || s.typed[t] {
+	if t.HasBVar() {
+		if s.binderFacts != nil {
+			*s.binderFacts = append(*s.binderFacts, fact)
+		}
+		return
+	}
+	if t.IsLit() || s.typed[t] {
 		return
 	}
 	s.typed[t] = true
